@@ -25,6 +25,7 @@ RULE = (
     "schedule-dependent result (pcgrad), a mixed-sign column with a leak not in {0,1} (graddrop), m>=2 (random). "
     "Distinct = distinct case description."
     " One CAGrad case in five and one MGDA / Random / GradDrop case in 14 is widened by 5000 / 70 000 columns."
+    " Two-row MGDA: mode `balanced` (optimum within 1e-5..1e-3 of the barycentre), epsilon in {0, 1e-3, 0.5, 1, 100}."
 )
 ASSUMPTIONS = [
     "PCGrad draws its orders through torch.randperm (scripted by patching that public function for the call); if the "
